@@ -77,6 +77,9 @@ func (c *Collection) writeWithMeta(key string, body []byte, xattrs []byte, oldCa
 			isJSON:     isJSON,
 			revSeqNo:   revSeqNo,
 		}
+		if e.value == nil {
+			e.isDeletion = true // stored as a tombstone (see storeDocument): say so on the feed too
+		}
 		if err = c.storeDocument(txn, e); err != nil {
 			return err
 		}
